@@ -1,7 +1,7 @@
 (** C18 — Module imports stay acyclic and visibility matches the declarations.
     Statements only; proofs in Proofs/ModuleProofs.v.  Model of the repaired code (delete_module
     also drops import declarations naming the deleted module). *)
-From RRE Require Import Base.Sx Model.Module Proofs.ModuleProofs Proofs.ModuleAcyclicProofs.
+From RRE Require Import Base.Sx Model.Module Proofs.ModuleProofs Proofs.ModuleAcyclicProofs Proofs.ModuleListingProofs.
 Open Scope N_scope.
 
 (** A refused operation (in particular an import that would close a cycle) changes nothing. *)
@@ -67,6 +67,25 @@ Proof.
   destruct (detect_cycle_complete g to from E) as [H|H]; contradiction.
 Qed.
 Print Assumptions C18_detect_cycle_is_reachability.
+
+(** The listing agrees with the visibility test (after the repair "get_visible_rules lists re-exported rules"): in every
+    reachable state the listing of an existing module never fails and contains exactly the rules that exist in some module
+    and that is_rule_visible reports visible to it - own rules, rules exported by an imported module, and rules an imported
+    module re-exports from its own imports. *)
+Theorem C18_listing_is_visibility : forall ops n r,
+  exists_mod (mods (exec init ops)) n = true ->
+  exists l, get_visible_rules (exec init ops) n = Some l
+            /\ (mem_str r l = true <-> is_rule_visible (exec init ops) r n = 1 /\ mem_str r (all_rules (mods (exec init ops))) = true).
+Proof. intros ops n r. apply listing_is_visibility. apply exec_Inv. apply Inv_init. Qed.
+Print Assumptions C18_listing_is_visibility.
+
+(** the repaired witness: B owns r and exports everything; C imports B and re-exports; A imports C: r is visible to A and listed *)
+Example C18_listing_example :
+  let a := [65] in let b := [66] in let c := [67] in let r := [114] in
+  let g := exec init [Create a; Create b; Create c; AddRule b r; SetExport b ExAll; SetExport c ExAll;
+                      Import c b ImAllRules [star] (Some [[star]]); Import a c ImAllRules [star] None] in
+  is_rule_visible g r a = 1 /\ option_map (mem_str r) (get_visible_rules g a) = Some true.
+Proof. vm_compute. split; reflexivity. Qed.
 
 (** non-vacuity + the repaired witness: A imports B; delete B; recreate B; B imports A is accepted
     only because the stale declaration is gone, and the declared relation stays acyclic. *)
